@@ -164,6 +164,9 @@ type c15Case struct {
 	EnvCase  string   `json:"envcase"`
 	Junk     []string `json:"junk"`
 	Fstate   string   `json:"fstate"`
+	NSide    string   `json:"nside"` // neighbour option: before | after | -
+	NSrc     string   `json:"nsrc"`  // fenv | env | file | -
+	NForm    string   `json:"nform"` // ok | ill | -
 	Via      string   `json:"via"`
 	Winner   string   `json:"winner"`
 	Value    string   `json:"value"`
@@ -369,6 +372,7 @@ type c15Worker struct {
 	loads   int64
 	ran     int64
 	skipped int64
+	nnbr    int64
 	ndeg    int64
 	flaky   int64
 	nontriv int64
@@ -727,6 +731,7 @@ func c15RunShard(t *testing.T, shard, shards int) {
 	w := &c15Worker{opts: opts, path: filepath.Join(os.Getenv("VERIF_TMP"), fmt.Sprintf("c15-%d.properties", shard))}
 	extraEvery := int64(verifx.EnvInt("VERIF_C15_EXTRA_EVERY", 1))
 	deepEvery := int64(verifx.EnvInt("VERIF_C15_DEEP_EVERY", 1))
+	nbrEvery := int64(verifx.EnvInt("VERIF_C15_NBR_EVERY", 1))
 	debug.SetGCPercent(400)
 	nopts := 0
 	for oi := range opts {
@@ -783,6 +788,16 @@ func c15RunShard(t *testing.T, shard, shards int) {
 			if c.Opt != "" {
 				idx = c.Idx
 			}
+			if c.NSrc != "" && c.NSrc != c15None {
+				if c.Opt == "" && (int64(i)+int64(oi)+seed)%nbrEvery != 0 { // a rotating share in the quick tier
+					w.skipped++
+					continue
+				}
+				if !w.runNeighbour(c, o, oi, ref, idx) {
+					w.skipped++
+				}
+				continue
+			}
 			// combinations of three and four sources are replayed for a rotating share of the options in the quick tier
 			if c.Opt == "" && deepEvery > 1 && c15NSources(c) >= 3 && (int64(i)+int64(oi)+seed)%deepEvery != 0 {
 				w.skipped++
@@ -812,7 +827,7 @@ func c15RunShard(t *testing.T, shard, shards int) {
 	if n := verifx.EnvInt("VERIF_C15_ROBUST", 0); n > 0 {
 		nrob = w.robust(rand.New(rand.NewSource(seed*1000+int64(shard))), n/shards+1)
 	}
-	verifx.Summary(map[string]any{"options": nopts, "all_options": len(opts), "cases": len(cases), "ran": w.ran, "loads": w.loads, "skipped": w.skipped, "flaky": w.flaky, "degenerate_replays": w.ndeg,
+	verifx.Summary(map[string]any{"options": nopts, "all_options": len(opts), "cases": len(cases), "ran": w.ran, "loads": w.loads, "skipped": w.skipped, "flaky": w.flaky, "degenerate_replays": w.ndeg, "neighbour_replays": w.nnbr,
 		"distinct_nontrivial": w.nontriv, "unobservable": w.unobs, "bad_accepted": w.badAcc, "robust": nrob, "samples": w.samples})
 }
 
